@@ -351,6 +351,19 @@ def matrix():
                              "ops": [("new",), ("assign", None), ("load", None, "tree"), ("saveload", "json"), ("assign", "secret1"),
                                      ("assign", None), ("challenge", "secret1"), ("load", None, "json"), ("challenge", "secret1")],
                              "secrets": ["secret1"]}))
+    # very long secrets that differ only far from the start (beyond any block / buffer size one might hash up to)
+    for a in range(6):
+        for n, asbytes in ((4096, bool(a % 2)), (65, not a % 2)):
+            head = ("pw-%d-" % a) + "Ab3$" * ((n - 5) // 4 + 1)
+            head = head[:n]
+            pp, qq, short = head + "x", head + "y", head
+            if asbytes:
+                pp, qq, short = pp.encode(), qq.encode(), short.encode()
+            ops = [("new",), ("assign", pp), ("challenge", pp), ("challenge", qq), ("challenge", short),
+                   ("saveload", FORMATS[a % 5]), ("challenge", qq)]
+            if not asbytes and n < 100:
+                ops += [("load", qq, "tree"), ("challenge", pp), ("challenge", qq)]
+            cases.append(finish({"alg": a, "req": False, "default": None, "ops": ops, "secrets": [pp, qq]}))
     return cases
 
 
